@@ -347,7 +347,7 @@ def check(ctx):
             "random strings to length 300. Each case runs the four functions separately and the pipeline through "
             "htp_normalize_parsed_uri; compared: result bytes, tx->flags masked to HTP_PATH_*, response_status_expected_number. "
             "distinct_nontrivial = distinct (switches, handling, decoder flags, pipeline flags, validate flags) classes + output classes."
-            % (L, ncfg, 3 if ctx.thorough() else 2, 3 if ctx.thorough() else 2, 11 if ctx.thorough() else 9))
+            % (L, ncfg[0], L if ctx.thorough() else L - 1, ncfg[1], 3 if ctx.thorough() else 2, 3 if ctx.thorough() else 2, 11 if ctx.thorough() else 9))
     return vf.standard_epilogue(ctx, pr, "make Props/Properties_C12.vo (coqc 8.16.1) + ./check C12", rule,
                                 ["url_encoding_invalid_handling ranges over the three values of its enum type (other integers cannot be "
                                  "passed through the typed setter; the drivers refuse them)",
